@@ -341,6 +341,15 @@ func (sc *StorageCar) Put(ctx context.Context, keyStr string, data []byte) error
 	}
 	n := uint64(w.Position())
 	if err := util.LdWrite(w, keyCid.Bytes(), data); err != nil {
+		if sc.dataWriter != nil {
+			// Rewind over whatever part of the section got written, so that the next
+			// section overwrites it instead of landing after garbage.
+			sc.dataWriter.Seek(int64(n), io.SeekStart)
+		} else {
+			// A plain stream cannot take back a torn section: refuse further use
+			// rather than append sections after garbage.
+			sc.closed = true
+		}
 		return err
 	}
 	idx.InsertNoReplace(keyCid, n)
